@@ -266,12 +266,16 @@ package tls
 //@ func (*clientHandshakeStateTLS13).utlsReadServerCertificate
 //@   property C21
 //@   let cm = msg.(*utlsCompressedCertificateMsg)
-//@   requires hs != nil && hs.uconn != nil
+//@   requires hs != nil && hs.uconn != nil && hs.c != nil
 //@   requires typednil: istype(msg, *utlsCompressedCertificateMsg) ==> cm != nil
+//@   requires ulen: istype(msg, *utlsCompressedCertificateMsg) ==> cm.uncompressedLength <= 16777215
+//@   note ulen: the message comes from readHandshake -> (*utlsCompressedCertificateMsg).unmarshal, whose verified postcondition `ulen` bounds the field by 0xffffff (ReadUint24); readHandshake itself is not under contract
 //@   note readHandshake always passes a freshly allocated message, never a typed nil pointer
 //@   ensures notcompressed: !istype(msg, *utlsCompressedCertificateMsg) ==> processedMsg == nil && err == nil
 //@   ensures notadvertised: old(len(hs.uconn.certCompressionAlgs)) == 0 ==> processedMsg == nil && err == nil
 //@   ensures either: processedMsg == nil || err == nil
+//@   at after call transcriptMsg#0: assume msgkept: hs.c != nil && hs.uconn != nil && cm.uncompressedLength == old(cm.uncompressedLength) && cm.algorithm == old(cm.algorithm) && cm.compressedCertificateMessage == old(cm.compressedCertificateMessage) && hs.uconn.certCompressionAlgs == old(hs.uconn.certCompressionAlgs)
+//@   note msgkept: transcriptMsg (upstream, not under contract) only feeds the message's bytes to the transcript hash and may cache its encoding in the message's raw field; it is assumed not to change the wire fields of the message or the handshake state
 //@   at before call transcriptMsg#0: assert what: istype(msg, *utlsCompressedCertificateMsg) && arg0 == msg && arg1 == hs.transcript
 //@   at before call decompressCert#0: assert same: arg0 == hs && arg1.algorithm == cm.algorithm && arg1.uncompressedLength == cm.uncompressedLength && arg1.compressedCertificateMessage == cm.compressedCertificateMessage
 //@   loop 0 invariant -1 <= $rangeindex && $rangeindex < len(hs.uconn.Extensions)
